@@ -649,6 +649,61 @@ pub fn has_self_ref(quads: &[Q]) -> bool {
     })
 }
 
+/// One small connected piece over blank nodes `{pre}0..`: kinds 0 path, 1 cycle, 2 out-star, 3 in-star, 4 path ending in an IRI,
+/// 5 single node pointing to an IRI, 6 "Y" (two sources, one sink)
+pub fn small_component(kind: usize, n: usize, pre: &str, p: &str) -> Vec<Q> {
+    let b = |i: usize| T::Bnode(format!("{}{}", pre, i));
+    let n = n.max(1);
+    match kind % 7 {
+        0 => (0..n).map(|i| quad(b(i), iri(p), b(i + 1), None)).collect(),
+        1 => (0..n.max(2)).map(|i| quad(b(i), iri(p), b((i + 1) % n.max(2)), None)).collect(),
+        2 => (1..=n).map(|i| quad(b(0), iri(p), b(i), None)).collect(),
+        3 => (1..=n).map(|i| quad(b(i), iri(p), b(0), None)).collect(),
+        4 => {
+            let mut v: Vec<Q> = (0..n).map(|i| quad(b(i), iri(p), b(i + 1), None)).collect();
+            v.push(quad(b(n), iri(p), iri("x:o"), None));
+            v
+        }
+        5 => vec![quad(b(0), iri(p), iri("x:o"), None)],
+        _ => vec![quad(b(0), iri(p), b(2), None), quad(b(1), iri(p), b(2), None), quad(b(2), iri(p), b(3), None)],
+    }
+}
+
+/// union of several disconnected pieces that share end shapes (so that first-degree hashes are shared ACROSS pieces
+/// while some hash lists get their canonical ids through recursion started in another list)
+pub fn component_union(parts: &[(usize, usize)], p: &str) -> Vec<Q> {
+    let mut v = vec![];
+    for (i, (kind, n)) in parts.iter().enumerate() {
+        let pre = ["ca", "cb", "cc", "cd"][i % 4];
+        v.extend(small_component(*kind, *n, pre, p));
+    }
+    dedup(v)
+}
+
+/// relabel so that the sort order of the labels is a given permutation pattern of the original order:
+/// 0 identity, 1 reversed, 2 interleaved across components (round robin), 3 random
+pub fn relabel_pattern(quads: &[Q], pattern: usize, rng: &mut Rng) -> Vec<Q> {
+    let labels: Vec<String> = bnode_labels(quads).into_iter().collect();
+    let n = labels.len();
+    let mut order: Vec<usize> = (0..n).collect();
+    match pattern % 4 {
+        1 => order.reverse(),
+        2 => {
+            // labels are "c<piece><index>": sort by index first, then piece
+            order.sort_by_key(|&i| (labels[i][2..].to_string(), labels[i][..2].to_string()));
+        }
+        3 => shuffle(&mut order, rng),
+        _ => {}
+    }
+    // the k-th label in `order` gets the k-th smallest new label
+    let mut m = BTreeMap::new();
+    for (k, &i) in order.iter().enumerate() {
+        m.insert(labels[i].clone(), format!("v{:02}", k));
+    }
+    let f = move |b: &str| m[b].clone();
+    quads.iter().map(|q| map_quad(q, &f)).collect()
+}
+
 pub fn random_graph(rng: &mut Rng, nb: usize, nq: usize) -> Vec<Q> {
     let preds = [P0, P1];
     let mut v = vec![];
